@@ -295,7 +295,8 @@ def _execute(case, edit):
                 got = [canon.NA if b is None else canon.canon_obj(b) for b in back]
             else:
                 if n and len(fmt) % 2 == 0 and form != "proxy":
-                    s = di.Vector(np.asarray(s).astype(str))       # the same strings as an old-style fixed-width array
+                    lst_ = [str(x) for x in np.asarray(s).tolist()]
+                    s = di.Vector(np.array(lst_, dtype=f"U{max(len(x) for x in lst_) + 1}"))       # the same strings as an old-style fixed-width array
                     res.cls("from_string:fixed-width-input")
                 back = s.dt.from_string(fmt) if form == "proxy" else di.dt.from_string(s, fmt)
                 got = canon.col_cells(back)
